@@ -321,6 +321,7 @@ func c17Variant(to, debug, bare bool) string {
 
 func runC17(cases string, res *Result) {
 	c17UnreadableFile(cases, res)
+	c17ApplyAroundNothing(res)
 	known := map[string]*Finding{}
 	knownSize := map[string]int{}
 	readCases(cases, func(c Case) {
@@ -762,6 +763,53 @@ func c17UnreadableFile(cases string, res *Result) {
 			case !errors.As(err, &pe):
 				res.add(Finding{Kind: "oracle", Where: "c17-unreadable-file/" + n, Case: c, Expected: "errors.As(err, *fs.PathError)", Observed: err.Error(),
 					Detail: "the cause of the loader's failure cannot be found in the error chain"})
+			}
+		}
+	}
+}
+
+// c17ApplyAroundNothing: an apply block whose body renders to nothing still applies its filter: a filter that does not
+// exist, or that always fails, ends the render with an error (the callback's own error in the chain), at top level, in
+// an included template inside a loop, in a block of an inherited parent.
+func c17ApplyAroundNothing(res *Result) {
+	sentinel := errors.New("c17: this filter always fails")
+	bodies := []string{"", "{% if nope %}x{% endif %}", "{% for i in [] %}x{% endfor %}", "{{ nope }}", "{# nothing #}", "{% set q = 1 %}"}
+	for _, filter := range []string{"nosuchfilter", "alwaysfails"} {
+		for bi, body := range bodies {
+			apply := "{% apply " + filter + " %}" + body + "{% endapply %}"
+			for wi, w := range []map[string]string{
+				{"main": "X" + apply + "Y"},
+				{"main": "[{% for i in [1, 2] %}{% include 'p' %}{% endfor %}]", "p": apply},
+				{"main": "{% extends 'base' %}", "base": "<{% block k %}" + apply + "{% endblock %}>"},
+				{"main": "{% macro m() %}" + apply + "{% endmacro %}({{ m() }})"},
+			} {
+				eng := twig.New()
+				eng.AddFilter("alwaysfails", func(v interface{}, _ ...interface{}) (interface{}, error) {
+					return nil, fmt.Errorf("alwaysfails: %w", sentinel)
+				})
+				ok := true
+				for n, s := range w {
+					if eng.RegisterString(n, s) != nil {
+						ok = false
+					}
+				}
+				if !ok {
+					continue
+				}
+				c := Case{"stream": "c17-apply-around-nothing", "filter": filter, "body": body, "templates": w}
+				res.Hist["stream:c17-apply-around-nothing"]++
+				res.Evaluations++
+				out, err := eng.Render("main", map[string]interface{}{})
+				where := fmt.Sprintf("c17-apply-around-nothing/%s/body%d/shape%d", filter, bi, wi)
+				switch {
+				case err == nil:
+					res.add(Finding{Kind: "oracle", Where: where, Case: c, Expected: "a non-nil error", Observed: "nil error, output " + strconv.Quote(out),
+						Detail: "the filter of an apply block does not exist or fails; the render returned output"})
+				case out != "":
+					res.add(Finding{Kind: "oracle", Where: where, Case: c, Expected: `"" with the error`, Observed: strconv.Quote(out), Detail: "partial output next to the error"})
+				case filter == "alwaysfails" && !errors.Is(err, sentinel):
+					res.add(Finding{Kind: "oracle", Where: where, Case: c, Expected: "errors.Is(err, the filter's error)", Observed: err.Error(), Detail: "the cause is not in the error chain"})
+				}
 			}
 		}
 	}
